@@ -255,3 +255,38 @@ func isNilConst(v ssa.Value) bool {
 	c, ok := v.(*ssa.Const)
 	return ok && c.IsNil()
 }
+
+// retOperand returns the i-th returned value, seeing through the defer spill idiom
+// (*slot = v; rundefers; t = *slot; return t).
+func retOperand(ret *ssa.Return, i int) ssa.Value {
+	v := ret.Results[i]
+	u, ok := v.(*ssa.UnOp)
+	if !ok || u.Op != token.MUL {
+		return v
+	}
+	a, ok := u.X.(*ssa.Alloc)
+	if !ok {
+		return v
+	}
+	b := ret.Block()
+	var last ssa.Value
+	for _, in := range b.Instrs {
+		if in == ssa.Instruction(u) {
+			break
+		}
+		if st, ok := in.(*ssa.Store); ok && st.Addr == a {
+			last = st.Val
+		}
+	}
+	if last != nil {
+		return last
+	}
+	return v
+}
+
+func retLast(ret *ssa.Return) ssa.Value {
+	if len(ret.Results) == 0 {
+		return nil
+	}
+	return retOperand(ret, len(ret.Results)-1)
+}
